@@ -121,11 +121,27 @@ func builtinDateSetTime(call FunctionCall) Value {
 	return date.Value()
 }
 
-func builtinDateBeforeSet(call FunctionCall, argumentLimit int, timeLocal bool) (*object, *dateObject, *ecmaTime, []int) {
+// zeroIfNaN: an invalid date is treated as the time value +0 (step 1 of setFullYear / setUTCFullYear, 15.9.5.40-41).
+func builtinDateBeforeSet(call FunctionCall, argumentLimit int, timeLocal, zeroIfNaN bool) (*object, *dateObject, *ecmaTime, []int) {
 	obj := call.thisObject()
 	date := dateObjectOf(call.runtime, call.thisObject())
+
+	// Every supplied argument is converted, in order, before anything else.
+	numberList := make([]_number, min(argumentLimit, len(call.ArgumentList)))
+	for index := range numberList {
+		numberList[index] = call.ArgumentList[index].number()
+	}
+
 	if date.isNaN {
-		return nil, nil, nil, nil
+		if !zeroIfNaN {
+			return nil, nil, nil, nil
+		}
+		location := time.UTC
+		if timeLocal {
+			location = time.Local //nolint:gosmopolitan
+		}
+		date = dateObject{}
+		date.SetTime(time.Date(1970, 1, 1, 0, 0, 0, 0, location))
 	}
 
 	if argumentLimit > len(call.ArgumentList) {
@@ -139,8 +155,7 @@ func builtinDateBeforeSet(call FunctionCall, argumentLimit int, timeLocal bool) 
 
 	valueList := make([]int, argumentLimit)
 	for index := range argumentLimit {
-		value := call.ArgumentList[index]
-		nm := value.number()
+		nm := numberList[index]
 		switch nm.kind {
 		case numberInteger, numberFloat:
 		default:
@@ -368,7 +383,7 @@ func builtinDateGetTimezoneOffset(call FunctionCall) Value {
 }
 
 func builtinDateSetMilliseconds(call FunctionCall) Value {
-	obj, date, ecmaTime, value := builtinDateBeforeSet(call, 1, true)
+	obj, date, ecmaTime, value := builtinDateBeforeSet(call, 1, true, false)
 	if ecmaTime == nil {
 		return NaNValue()
 	}
@@ -381,7 +396,7 @@ func builtinDateSetMilliseconds(call FunctionCall) Value {
 }
 
 func builtinDateSetUTCMilliseconds(call FunctionCall) Value {
-	obj, date, ecmaTime, value := builtinDateBeforeSet(call, 1, false)
+	obj, date, ecmaTime, value := builtinDateBeforeSet(call, 1, false, false)
 	if ecmaTime == nil {
 		return NaNValue()
 	}
@@ -394,7 +409,7 @@ func builtinDateSetUTCMilliseconds(call FunctionCall) Value {
 }
 
 func builtinDateSetSeconds(call FunctionCall) Value {
-	obj, date, ecmaTime, value := builtinDateBeforeSet(call, 2, true)
+	obj, date, ecmaTime, value := builtinDateBeforeSet(call, 2, true, false)
 	if ecmaTime == nil {
 		return NaNValue()
 	}
@@ -410,7 +425,7 @@ func builtinDateSetSeconds(call FunctionCall) Value {
 }
 
 func builtinDateSetUTCSeconds(call FunctionCall) Value {
-	obj, date, ecmaTime, value := builtinDateBeforeSet(call, 2, false)
+	obj, date, ecmaTime, value := builtinDateBeforeSet(call, 2, false, false)
 	if ecmaTime == nil {
 		return NaNValue()
 	}
@@ -426,7 +441,7 @@ func builtinDateSetUTCSeconds(call FunctionCall) Value {
 }
 
 func builtinDateSetMinutes(call FunctionCall) Value {
-	obj, date, ecmaTime, value := builtinDateBeforeSet(call, 3, true)
+	obj, date, ecmaTime, value := builtinDateBeforeSet(call, 3, true, false)
 	if ecmaTime == nil {
 		return NaNValue()
 	}
@@ -445,7 +460,7 @@ func builtinDateSetMinutes(call FunctionCall) Value {
 }
 
 func builtinDateSetUTCMinutes(call FunctionCall) Value {
-	obj, date, ecmaTime, value := builtinDateBeforeSet(call, 3, false)
+	obj, date, ecmaTime, value := builtinDateBeforeSet(call, 3, false, false)
 	if ecmaTime == nil {
 		return NaNValue()
 	}
@@ -464,7 +479,7 @@ func builtinDateSetUTCMinutes(call FunctionCall) Value {
 }
 
 func builtinDateSetHours(call FunctionCall) Value {
-	obj, date, ecmaTime, value := builtinDateBeforeSet(call, 4, true)
+	obj, date, ecmaTime, value := builtinDateBeforeSet(call, 4, true, false)
 	if ecmaTime == nil {
 		return NaNValue()
 	}
@@ -487,7 +502,7 @@ func builtinDateSetHours(call FunctionCall) Value {
 }
 
 func builtinDateSetUTCHours(call FunctionCall) Value {
-	obj, date, ecmaTime, value := builtinDateBeforeSet(call, 4, false)
+	obj, date, ecmaTime, value := builtinDateBeforeSet(call, 4, false, false)
 	if ecmaTime == nil {
 		return NaNValue()
 	}
@@ -510,7 +525,7 @@ func builtinDateSetUTCHours(call FunctionCall) Value {
 }
 
 func builtinDateSetDate(call FunctionCall) Value {
-	obj, date, ecmaTime, value := builtinDateBeforeSet(call, 1, true)
+	obj, date, ecmaTime, value := builtinDateBeforeSet(call, 1, true, false)
 	if ecmaTime == nil {
 		return NaNValue()
 	}
@@ -523,7 +538,7 @@ func builtinDateSetDate(call FunctionCall) Value {
 }
 
 func builtinDateSetUTCDate(call FunctionCall) Value {
-	obj, date, ecmaTime, value := builtinDateBeforeSet(call, 1, false)
+	obj, date, ecmaTime, value := builtinDateBeforeSet(call, 1, false, false)
 	if ecmaTime == nil {
 		return NaNValue()
 	}
@@ -536,7 +551,7 @@ func builtinDateSetUTCDate(call FunctionCall) Value {
 }
 
 func builtinDateSetMonth(call FunctionCall) Value {
-	obj, date, ecmaTime, value := builtinDateBeforeSet(call, 2, true)
+	obj, date, ecmaTime, value := builtinDateBeforeSet(call, 2, true, false)
 	if ecmaTime == nil {
 		return NaNValue()
 	}
@@ -552,7 +567,7 @@ func builtinDateSetMonth(call FunctionCall) Value {
 }
 
 func builtinDateSetUTCMonth(call FunctionCall) Value {
-	obj, date, ecmaTime, value := builtinDateBeforeSet(call, 2, false)
+	obj, date, ecmaTime, value := builtinDateBeforeSet(call, 2, false, false)
 	if ecmaTime == nil {
 		return NaNValue()
 	}
@@ -568,7 +583,7 @@ func builtinDateSetUTCMonth(call FunctionCall) Value {
 }
 
 func builtinDateSetYear(call FunctionCall) Value {
-	obj, date, ecmaTime, value := builtinDateBeforeSet(call, 1, true)
+	obj, date, ecmaTime, value := builtinDateBeforeSet(call, 1, true, false)
 	if ecmaTime == nil {
 		return NaNValue()
 	}
@@ -585,7 +600,7 @@ func builtinDateSetYear(call FunctionCall) Value {
 }
 
 func builtinDateSetFullYear(call FunctionCall) Value {
-	obj, date, ecmaTime, value := builtinDateBeforeSet(call, 3, true)
+	obj, date, ecmaTime, value := builtinDateBeforeSet(call, 3, true, true)
 	if ecmaTime == nil {
 		return NaNValue()
 	}
@@ -604,7 +619,7 @@ func builtinDateSetFullYear(call FunctionCall) Value {
 }
 
 func builtinDateSetUTCFullYear(call FunctionCall) Value {
-	obj, date, ecmaTime, value := builtinDateBeforeSet(call, 3, false)
+	obj, date, ecmaTime, value := builtinDateBeforeSet(call, 3, false, true)
 	if ecmaTime == nil {
 		return NaNValue()
 	}
